@@ -6,7 +6,7 @@ from . import gridgen
 
 def check():
     return solvercheck.run(
-        "C10", None,
+        "C10", "C10.v",
         [dict(profile=PROFILES["events"], n_quick=300, n_thorough=5000),
          dict(builder=(lambda seed, n, d, tag: gridgen.event_builder(seed, n, d, tag, terminal_prob=0.7)), n_quick=300, n_thorough=5000)],
         [oracles.oracle_C10, oracles.oracle_C09, oracles.oracle_C05, oracles.oracle_shapes], TB,
